@@ -505,6 +505,57 @@ Definition worker_block (w : world) (p : nat) : world * yld :=
       (update_state_rep w n, YDone)
   end.
 
+(* FleetStore.fleet_activation_process *)
+Definition fleet_loop (w : world) (p e : nat) : world * yld :=
+  let '(w, t) := w_timeout w (efdelay (get_edge w e)) in
+  let '(w, c) := w_any_of w [t; eact (get_edge w e)] in
+  (setpc w p 1, YEvent c).
+
+Definition fleetact_block (w : world) (p : nat) : world * yld :=
+  let pr := me w p in
+  let e := pown pr in
+  match ppc pr with
+  | 0%nat => fleet_loop w p e
+  | _ =>
+      let ed := get_edge w e in
+      match StoreB.transit (est ed) with
+      | [] => fleet_loop w p e
+      | _ =>
+          let batch := filter (fun it => negb (existsb (Nat.eqb it) (eintransit ed))) (StoreB.transit (est ed)) in
+          let w := match batch with
+                   | [] => w
+                   | _ => let w := upd_edge w e (fun x => x <| eintransit ::= fun l => l ++ batch |>) in
+                          let '(w, _, _) := spawn w (proc0 <| pkd := KFleetMove |> <| pown := e |> <| plst := batch |>) in w
+                   end in
+          let w := if e_trig (get_ev (wk w) (eact (get_edge w e)))
+                   then let '(w, a) := w_event w in upd_edge w e (fun x => x <| eact := a |>)
+                   else w in
+          fleet_loop w p e
+      end
+  end.
+
+(* FleetStore.move_to_ready_items(batch) *)
+Definition fleetmove_block (w : world) (p : nat) : world * yld :=
+  let pr := me w p in
+  let e := pown pr in
+  match ppc pr with
+  | 0%nat =>
+      match plst pr with
+      | [] => (w, YDone)
+      | _ => let '(w, t) := w_timeout w (eftransit (get_edge w e)) in (setpc w p 1, YEvent t)
+      end
+  | 1%nat => let '(w, t) := w_timeout w (eftransit (get_edge w e)) in (setpc w p 2, YEvent t)
+  | _ =>
+      (fold_left (fun w it =>
+                    match wcrash w with
+                    | Some _ => w
+                    | None =>
+                        let '(w1, r, ts) := store_op w e (StoreB.Ready it) in
+                        let w2 := upd_edge w1 e (fun x => x <| eintransit ::= filter (fun t => negb (Nat.eqb t it)) |>) in
+                        w_succeed_all (out_err w2 r 61) ts
+                    end) (plst pr) w, YDone)
+  end.
+
 Definition block (w : world) (p : nat) : world * yld :=
   match pkd (me w p) with
   | KSourceB => source_block w p
@@ -513,6 +564,8 @@ Definition block (w : world) (p : nat) : world * yld :=
   | KSinkB => sink_block w p
   | KMachineB => machine_block w p
   | KWorker => worker_block w p
+  | KFleetAct => fleetact_block w p
+  | KFleetMove => fleetmove_block w p
   | _ => (crashw w (CValue 99), YDone)
   end.
 
